@@ -17,6 +17,13 @@ sampled bits). `elems`: scalars per element class of the proof.
 The algebraic checks of the *circuit's* script for the shape: the instances with an out-of-domain
 check and the number of terminals under the cross-AIR terminal-sum check (compared with the checks
 the harness saw decisive, in both verifiers, on proofs forged by an adversarial prover).
+
+  pows <commit measurable: 0|1> <query measurable: 0|1> <uni|batch> <the same numbers>
+    → pw commit=<bits>x<count>|0x0|- query=<bits>x<count>|0x0|-
+The proof-of-work events of the *circuit's* script for the shape: per phase the bit count the witnesses are
+judged against and how many witnesses (`0x0`: none; `-`: the harness had no under-ground proof whose native
+rejection is the PoW check of that phase alone, so nothing is compared). Compared with the phases the harness
+saw decisive, in both circuits, on proofs ground by a lazy prover for fewer bits than demanded.
 Unknown / malformed command → `bad-op`.
 -/
 import P3R.Model.VerifierScript
@@ -78,6 +85,32 @@ def run (line : String) : String :=
         | _ => "bad-op"
       | none => "bad-op"
     | _ => "bad-op"
+  | "pows" :: mc :: mq :: mode :: nums =>
+    match nums.mapM String.toNat?, mc.toNat?, mq.toNat? with
+    | some (zk :: d :: _dg :: nrc :: fr :: fp :: q :: cp :: qp :: _lmh :: k :: rest), some mc, some mq =>
+      match parseInsts rest k with
+      | some insts =>
+        let s : Shape := { zk := zk != 0, D := d, nrc := nrc, insts := insts, friRounds := fr,
+                           finalPolyLen := fp, queries := q, commitPowBits := cp, queryPowBits := qp }
+        let go (circ : Except String Script) : String :=
+          match circ with
+          | .error _ => "pw build-err"
+          | .ok sc =>
+            let commit := sc.events.filterMap fun e => match e with | .pow b (.commitPow _) => some b | _ => none
+            let query := sc.events.filterMap fun e => match e with | .pow b .queryPow => some b | _ => none
+            -- all witnesses of a phase against one bit count: `<bits>x<count>`; otherwise the list itself
+            let show1 (measurable : Nat) (l : List Nat) : String :=
+              if measurable = 0 then "-" else
+              match l with
+              | [] => "0x0"
+              | b :: t => if t.all (· == b) then s!"{b}x{l.length}" else ",".intercalate (l.map toString)
+            s!"pw commit={show1 mc commit} query={show1 mq query}"
+        match mode with
+        | "batch" => go (circuitBatch s)
+        | "uni" => if k = 1 then go (circuitUni s) else "bad-op"
+        | _ => "bad-op"
+      | none => "bad-op"
+    | _, _, _ => "bad-op"
   | _ => "bad-op"
 
 end C01Driver
